@@ -23,7 +23,7 @@ META = dict(
                 "Deflation: surplus == coeff * |<phi_d|psi>|^2 with a SYMBOLIC coefficient. N, Sz (all encodings, decoded "
                 "through the real state encoder) and S^2 (Jordan-Wigner, textbook Fock-space action) expectation values "
                 "requested from the solver equal those of the same state; the target Hamiltonian is restored afterwards.",
-    bounds=dict(quick="H2/sto-3g (4 spin-orbitals), UCCSD + HEA + user circuit, JW/BK/scBK/JKMN x both orderings, <=3 symbolic parameters",
+    bounds=dict(quick="H2/sto-3g (4 spin-orbitals; H4 with one frozen orbital for the symmetry values), every built-in ansatz + user circuit, JW/BK/scBK/JKMN/HCB x both orderings, <=3 symbolic parameters (the others concrete odd multiples of pi/2)",
                 thorough="same plus more encodings for penalties, H4 / H4 with a frozen orbital, k=2 UpCCGSD, 4-interval VSQS"),
     outside=["IEEE rounding", "the optimiser (simulate() is run with a one-point stand-in optimiser)", "PySCF integrals (concrete inputs here)", "S^2 for non-JW encodings "
              "(basis-state phases of the encoder are not modelled)", "registers wider than 4 qubits"],
